@@ -18,6 +18,8 @@ gene/transcript lines of its own that differ from what inference derives (G.make
 "gtf-mixed-strand": a model rewritten by G.make_mixed_strands (exons of one gene / transcript on both strands of one seqid).
 "gtf-dupkeys": a model rewritten by G.make_dupkeys (several subfeature lines with one exon_id under different transcripts),
 imported with id_spec {..., subfeature: 'exon_id'} and case["merge_strategy"] in G.DUP_STRATEGIES.
+"gtf-edge-coords": a model rewritten by make_edge_coords (below): all lines of 1..n genes moved so that the smallest exon start
+of the gene (optionally of each of its transcripts) is 0 or 1, or moved up beyond 2**29 / 2**31 / 2**40 (path or one-shot input).
 """
 import os
 import random
@@ -68,6 +70,12 @@ RULE = ("GTF files of 1-3 genes x 1-3 transcripts x 0-4 subfeature lines ('exon'
         "one of whose transcripts T has a transcript line is named T_1 (7 of 10); all four flag combinations for every other file, "
         "merge_strategy drawn for 1 of 3: every explicit line stays the single feature under its id with its own columns and "
         "attributes, every derived 'X_<k>' / 'T_1' has its type, extent and relatives. "
+        "(coordinates at the edges of the range) all lines of 1..n genes are moved along their seqid so that the smallest exon "
+        "start of the gene is 0 (a file converted from 0-based coordinates) or 1 (first base of the sequence) - in 1 of 3 the "
+        "first exon of EVERY transcript of the gene is stretched down to that coordinate, in 1 of 6 the first exon is the single "
+        "base 0..0 / 1..1 - or moved up so that they straddle / lie beyond 2**29, 2**31 or 2**40; lines that reached below the "
+        "exons are clipped at 0; from a path or one-shot, all four flag combinations for every third file: the derived feature "
+        "must exist, be retrievable and span exactly min start .. max end like anywhere else on the axis. "
         "Exon lines that carry a gene id but no (or an empty) transcript id are never generated. "
         "non-trivial = >= 2 transcripts in "
         "one gene and >= 1 transcript with >= 2 subfeature lines; distinct = file text + keys + flag combination + way of input")
@@ -111,7 +119,14 @@ REQUIRED = ["imports", "derived features compared (id, type, seqid, strand)", "d
     "rename-shaped ids: derived transcripts named 'X_<k>' beside a gene line 'X' compared (type, extent)",
     "rename-shaped ids: derived transcripts 'X_<k>' compared in an import where inference also met the gene line 'X'",
     "rename-shaped ids: such imports where the gene line differs from a derived gene (another source)",
-    "rename-shaped ids: transcript lines 'T' beside a gene named 'T_1' compared (single feature, own columns)"]
+    "rename-shaped ids: transcript lines 'T' beside a gene named 'T_1' compared (single feature, own columns)",
+    "coordinate edge: imports judged",
+    "coordinate edge: derived transcripts whose smallest exon start is 0 compared (exists, db[id], extent)",
+    "coordinate edge: derived genes whose smallest exon start is 0 compared (exists, db[id], extent)",
+    "coordinate edge: derived transcripts whose smallest exon start is 1 compared (exists, db[id], extent)",
+    "coordinate edge: derived genes whose smallest exon start is 1 compared (exists, db[id], extent)",
+    "coordinate edge: derived features ending beyond 2**31 compared (exists, db[id], extent)",
+    "coordinate edge: derived features compared after a one-shot input"]
 REQUIRED_CLASSES = ["flags: infer both", "flags: no transcripts", "flags: no genes", "flags: infer nothing",
                     "file: gene/transcript lines present", "file: no gene/transcript lines", "file: explicit lines look derived (merge path)",
                     "file: transcript without exons", "keys: custom", "keys: default", "subfeature: custom",
@@ -132,7 +147,10 @@ REQUIRED_CLASSES = ["flags: infer both", "flags: no transcripts", "flags: no gen
                     "one key, several lines: keys custom", "one key, several lines: keys default",
                     "one key, several lines: the lines of a key differ in coordinates",
                     "one key, several lines: a key shared by transcripts of two genes",
-                    "rename-shaped ids: transcripts 'X_1', 'X_2' of a gene line 'X'", "rename-shaped ids: gene 'T_1' of a transcript line 'T'"]
+                    "rename-shaped ids: transcripts 'X_1', 'X_2' of a gene line 'X'", "rename-shaped ids: gene 'T_1' of a transcript line 'T'",
+                    "coordinate edge: smallest exon start of a gene 0", "coordinate edge: smallest exon start of a gene 1",
+                    "coordinate edge: every transcript of the gene starts at the edge", "coordinate edge: single-base first exon",
+                    "coordinate edge: beyond 2**29", "coordinate edge: beyond 2**31", "coordinate edge: beyond 2**40"]
 ASSUMPTIONS = [
     "the reference model gvmon/models/gtfinfer.py is a faithful reading of the statement",
     "exons (subfeature lines) of one transcript and of one gene share their seqid (otherwise 'the exons' seqid' is "
@@ -140,6 +158,10 @@ ASSUMPTIONS = [
     "pairwise different.  Exons of one id on BOTH strands (mixed-strand class only): the derived feature exists, is "
     "retrievable, sits on the exons' seqid and spans min start .. max end over ALL its exons; its strand is not judged "
     "(a transcript whose own exons agree is judged on their strand even when its gene is mixed)",
+    "start and end are the non-negative integers written in columns 4 and 5; 'minimum start' and 'maximum end' are taken over "
+    "those numbers wherever they lie on the axis: 0 (files converted from 0-based coordinates; gffutils stores such lines as "
+    "they are) is a coordinate like any other and not 'no coordinate', and so are values beyond 2**29 / 2**31 / 2**40.  Negative "
+    "and '.' coordinates are not generated",
     "several lines with one primary key (a shared exon_id made the key of subfeature lines through id_spec): merge_strategy "
     "decides which of them are stored features - 'replace': the last line of the key, 'warning': the first, 'create_unique': "
     "all (later ones under a key of their own), 'merge' (lines identical in all columns but the attributes): one feature "
@@ -196,6 +218,62 @@ LARGE_CLASS = {"late": "large: gene/transcript lines only after line 1000", "ear
                "both": "large: gene/transcript lines on both sides of line 1000", "none": "large: no gene/transcript lines"}
 FLAG_NAMES = {(False, False): "flags: infer both", (True, False): "flags: no transcripts", (False, True): "flags: no genes",
               (True, True): "flags: infer nothing"}
+
+
+EDGE_LOW = (0, 0, 0, 1)
+EDGE_FAR = (("beyond 2**29", (1 << 29) - 150), ("beyond 2**31", (1 << 31) - 150), ("beyond 2**40", (1 << 40) + 7))
+
+
+def make_edge_coords(rng, m):
+    """Move all lines of 1..all genes (every line carrying that gene id) along their seqid so that the exons touch an edge of the
+    coordinate range: the smallest exon start of the gene becomes 0 or 1 ("low"; optionally the first exon of every transcript
+    of the gene is stretched down to it, optionally the first exon becomes a single base) or the whole gene is moved up by
+    about 2**29, 2**31, 2**40 ("far").  Distances between the lines are kept; starts of other lines that would fall below 0
+    are clipped at 0 (ends at their start).  Genes without exon lines are left alone.  Returns the list of class names."""
+    gkey, tkey, sub = m["gkey"], m["tkey"], m["subfeature"]
+    by_gene = {}
+    for rec in m["lines"]:
+        g = I.attr(rec, gkey)
+        by_gene.setdefault(g, []).append(rec)
+    genes = sorted((g for g in by_gene if g is not None and any(r["featuretype"] == sub and I.attr(r, tkey) for r in by_gene[g])), key=repr)
+    rng.shuffle(genes)
+    made = []
+    for gi, g in enumerate(genes):
+        if gi and rng.random() < 0.4:
+            continue
+        recs = by_gene[g]
+        exons = [r for r in recs if r["featuretype"] == sub]
+        lo = min(int(r["start"]) for r in exons)
+        if rng.random() < 0.75:
+            target = rng.choice(EDGE_LOW)
+            delta = target - lo
+            made.append("smallest exon start of a gene %d" % target)
+        else:
+            name, off = rng.choice(EDGE_FAR)
+            delta = off - lo + rng.choice([0, 0, 149, 151, 100000])
+            target = None
+            made.append(name)
+        for r in recs:
+            s_ = max(0, int(r["start"]) + delta)
+            e_ = max(s_, int(r["end"]) + delta)
+            r["start"], r["end"] = str(s_), str(e_)
+        if target is not None:
+            firsts = {}
+            for r in exons:
+                t = I.attr(r, tkey)
+                if t not in firsts or int(r["start"]) < int(firsts[t]["start"]):
+                    firsts[t] = r
+            if len(firsts) > 1 and rng.random() < 0.34:
+                for r in firsts.values():
+                    r["start"] = str(target)
+                made.append("every transcript of the gene starts at the edge")
+            if rng.random() < 0.17:
+                for r in firsts.values():
+                    if int(r["start"]) == target:
+                        r["end"] = str(target)
+                made.append("single-base first exon")
+    m["edge_coords"] = sorted(set(made))
+    return m["edge_coords"]
 
 
 def setup(ctx):
@@ -324,6 +402,8 @@ def import_one(ctx, case, m):
                 observe_dupkeys(ctx, case, m, lines, exp)
             if m.get("rename_shaped"):
                 observe_rename_shaped(ctx, case, m, exp)
+            if m.get("edge_coords"):
+                ctx.mon("coordinate edge: imports judged")
         return got
     finally:
         if db is not None:
@@ -454,6 +534,14 @@ def judge(ctx, case, db, exp, lines, info, m):
                 ctx.mon("seqid edge: derived features on a seqid that ENDS with a blank-like character compared")
             if oneshot:
                 ctx.mon("seqid edge: derived features compared after a one-shot input")
+        if both and m.get("edge_coords"):
+            E = "coordinate edge: derived "
+            if want["start"] in (0, 1):
+                ctx.mon(E + "%ss whose smallest exon start is %d compared (exists, db[id], extent)" % (want["featuretype"], want["start"]))
+            if want["end"] > (1 << 31):
+                ctx.mon(E + "features ending beyond 2**31 compared (exists, db[id], extent)")
+            if oneshot:
+                ctx.mon(E + "features compared after a one-shot input")
         if m.get("shared"):
             if ident in m["shared"] and both:
                 ctx.mon("shared transcript id: derived transcripts spanning the exons of >= 2 genes compared")
@@ -645,6 +733,7 @@ def classify(ctx, case, m=None):
         names += ["strategy: explicit lines differ in: " + d for d in m.get("differing") or ()]
     for mode in m.get("mixed_strands") or ():
         names.append("mixed strands: " + mode)
+    names += ["coordinate edge: " + n for n in m.get("edge_coords") or ()]
     if m.get("rename_shaped"):
         if m["rename_shaped"]["transcripts"]:
             names.append("rename-shaped ids: transcripts 'X_1', 'X_2' of a gene line 'X'")
@@ -794,6 +883,24 @@ def run(ctx):
             if strategy is not None:
                 case["merge_strategy"] = strategy
             one(ctx, case, m)
+    # -- (coordinates at the edges of the range) smallest exon start 0 / 1; genes beyond 2**29, 2**31, 2**40 ----------------------
+    for i in range(ctx.budget(120, 3000)):
+        for _ in range(20):
+            m = G.model(rng, ngenes=rng.choice([1, 2, 2, 3]), explicit=(None, None, "derived-like", "differing")[i % 4])
+            if make_edge_coords(rng, m):
+                break
+        else:
+            ctx.skip("coordinate edge: no gene with an exon line drawn")
+            continue
+        if i % 4 == 1:
+            cl = (0, 1, 10)[(i // 4) % 3]
+            if len(m["lines"]) > cl + 2:
+                one(ctx, {"kind": "gtf-edge-coords", "model": m, "how": ("generator", "iterator")[(i // 12) % 2], "checklines": cl,
+                          "dit": False, "dig": False, "db": "memory"}, m)
+                continue
+        dbkind = "file" if rng.random() < 0.15 else "memory"
+        for dit, dig in ([(False, False)] if i % 3 else list(FLAG_NAMES)):
+            one(ctx, {"kind": "gtf-edge-coords", "model": m, "dit": dit, "dig": dig, "db": dbkind}, m)
     ctx.mon("bins.bins contract evaluations", contracts.EVALS["bins.bins"])
 
 
@@ -824,6 +931,8 @@ MANIFEST = {
             "(last / first / all merged into one / all), so a replaced line's links must be gone and its transcript must no longer span it. "
             "A further class names the transcripts of a gene that has a gene line 'X' X_1, X_2, ... (and a gene T_1 beside a "
             "transcript line T): ids shaped like collision renames are ordinary ids; lines keep columns and attributes, derived features their type and extent. "
+            "Last, whole genes are moved to the edges of the coordinate axis (smallest exon start 0 or 1, every transcript starting "
+            "there, single-base first exon; genes straddling or beyond 2**29, 2**31, 2**40): derived features must exist and span min start .. max end as anywhere else. "
             "Held = no executed import disagreed.",
     "note": "Trusted: gvmon/models/gtfinfer.py, gvmon/models/hierarchy.py. Not judged: extents under a set flag, the strand of a "
             "derived feature whose exons lie on both strands, attributes of "
